@@ -163,6 +163,7 @@ package base
 
 //@ func (icounter *LogInputCounterSet) CountRecordPass(record *LogRecord)
 //@   property C19
+//@   flag counted
 //@   requires icounter != nil && record != nil && record.RawLength >= 0 && icounter.passedRecordsCountTotal.unwrittenValue < 4611686018427387904 && icounter.passedRecordsLengthTotal.unwrittenValue < 4611686018427387904 && record.RawLength < 4611686018427387904
 //@   modifies icounter.passedRecordsCountTotal, icounter.passedRecordsLengthTotal
 //@   ensures[one-record-and-its-length] icounter.passedRecordsCountTotal.unwrittenValue == old(icounter.passedRecordsCountTotal.unwrittenValue) + 1
@@ -170,6 +171,7 @@ package base
 //@        && icounter.passedRecordsCountTotal.metric == old(icounter.passedRecordsCountTotal.metric) && icounter.passedRecordsLengthTotal.metric == old(icounter.passedRecordsLengthTotal.metric)
 //@ func (icounter *LogInputCounterSet) CountRecordDrop(record *LogRecord)
 //@   property C19
+//@   flag counted
 //@   requires icounter != nil && record != nil && record.RawLength >= 0 && icounter.droppedRecordsCountTotal.unwrittenValue < 4611686018427387904 && icounter.droppedRecordsLengthTotal.unwrittenValue < 4611686018427387904 && record.RawLength < 4611686018427387904
 //@   modifies icounter.droppedRecordsCountTotal, icounter.droppedRecordsLengthTotal
 //@   ensures[one-record-and-its-length] icounter.droppedRecordsCountTotal.unwrittenValue == old(icounter.droppedRecordsCountTotal.unwrittenValue) + 1
